@@ -485,7 +485,7 @@ def check_dict_case(case, acc):
 KEY = st.one_of(
     st.text(alphabet="abcxyz_", min_size=1, max_size=4),
     st.text(alphabet="abc _-1é.", min_size=1, max_size=4),
-    st.sampled_from(["target", "target", "separator", "_ref", "node", "_hidden", "__x", "id", "a b", "1", "Name", "_NodeMixin", "child", "parents", "_NodeMixin__rev", "_NodeMixin__x", "_LightNodeMixin__rev"]),
+    st.sampled_from(["nodecls", "nodecls", "data", "attrs", "level", "dictcls", "target", "target", "separator", "_ref", "node", "_hidden", "__x", "id", "a b", "1", "Name", "_NodeMixin", "child", "parents", "_NodeMixin__rev", "_NodeMixin__x", "_LightNodeMixin__rev"]),
     # names of read-only NodeMixin properties are ordinary attribute keys for export/import (they live in __dict__)
     st.sampled_from(["size", "depth", "height", "path", "root", "leaves", "is_leaf", "siblings", "descendants", "ancestors"]),
 ).filter(lambda k: k not in ("parent", "children", "self", "name"))
